@@ -8,13 +8,15 @@ package main
 // case : tcp=<0|1> mc=<MaxConcurrentQuery> pre=<n> ops=<op>,<op>,...
 //   s<E>:<cid>             start exchange E (caller ID cid); wait until the server has read its query
 //   b<E>:<cid>+<E>:<cid>.. start several exchanges at once; wait until the server has read all queries
+//   h<E>:<cid>+<E>:<cid>.. all get a connection from the pool first, then exchange one by one (hook; else = b)
 //   r<E>:<p>               reply to E's current (connection, wire id) with payload nonce p
 //   u<c>:<id>:<p>          reply with wire id `id`, payload nonce p on connection c (unsolicited/dup/late)
 //   c<E>                   cancel E's context
 //   x<c>                   the server closes connection c
 //   pre=<n>: n sequential exchanges (query, correct reply, return) before the ops, summarised.
 // out  : pre=<n>:<maxid+1>:<uniq>+...;<bad> log=<group>|<group>|...  (one group per op)
-//   q<E>:<c>:<id>  i<c>:<id>:<p>|i-  m<E>:<ID>:<p>  e<E>:cancel|err  k<c>  x<c>|x-  t<E>
+//   q<E>:<c>:<id>  i<c>:<id>:<p>|i-  m<E>:<ID>:<p>  e<E>:cancel|err  x<c>|x-  t<E>
+//   plus a last group: k<c> for every exhausted connection the client closed (end of life)
 
 import (
 	"context"
@@ -75,7 +77,6 @@ type c05world struct {
 	autoBad int
 	// bookkeeping of what was reported
 	repRes   map[int]bool
-	repClose map[int]bool
 	timeouts int
 }
 
@@ -126,13 +127,17 @@ func (w *c05world) dial(ctx context.Context) (net.Conn, error) {
 // wait blocks (w.mu held) until pred() or the timeout.
 func (w *c05world) wait(pred func() bool) bool {
 	d := 2 * time.Second
-	if c05timeouts.Load() >= 2 {
-		d = 30 * time.Millisecond // something is badly wrong already: do not crawl
+	if c05timeouts.Load() >= 3 {
+		d = 25 * time.Millisecond // something is badly wrong already: do not crawl
+	}
+	if w.timeouts > 0 {
+		d = time.Millisecond
 	}
 	deadline := time.Now().Add(d)
 	for !pred() {
 		if time.Now().After(deadline) {
 			c05timeouts.Add(1)
+			w.timeouts++
 			return false
 		}
 		w.cond.Wait()
@@ -325,13 +330,45 @@ func c05classify(r *dnsmsg.Msg, err error, q []byte, cid int) *c05res {
 	return res
 }
 
-func (w *c05world) startEx(tr *transport.PipelineTransport, e, cid int) {
+// c05gate releases the starters of a burst at the same instant: each spins on its own P
+// until all have arrived (a sleeping goroutine would be woken one after the other).
+type c05gate struct {
+	n       int32
+	arrived atomic.Int32
+	open    atomic.Bool
+}
+
+func (g *c05gate) pass() {
+	g.arrived.Add(1)
+	for i := 0; !g.open.Load(); i++ {
+		if i > 1<<22 {
+			runtime.Gosched()
+		}
+	}
+}
+
+// optional hook of /repo (build tag verif, see /verif/patches-for-main/C05-transport-hook.diff):
+// ExchangeContext split in "get a connection from the pool" and "exchange on it, release".
+type c05hook interface {
+	VerifGetConn(ctx context.Context) (func(ctx context.Context, m []byte) (*dnsmsg.Msg, error), error)
+}
+
+type c05exFn func(ctx context.Context, m []byte) (*dnsmsg.Msg, error)
+
+func (w *c05world) startEx(tr *transport.PipelineTransport, e, cid int, gate *c05gate) {
+	w.startExFn(tr.ExchangeContext, e, cid, gate)
+}
+
+func (w *c05world) startExFn(fn c05exFn, e, cid int, gate *c05gate) {
 	ctx, cancel := context.WithCancel(context.Background())
 	x := &c05ex{e: e, cid: cid, q: c05query_(e, cid), cancel: cancel, last: [2]int{-1, -1}}
 	w.exs[e] = x
 	qb := append([]byte(nil), x.q...)
 	go func() {
-		r, err := tr.ExchangeContext(ctx, qb)
+		if gate != nil {
+			gate.pass() // a burst: all starters are released together
+		}
+		r, err := fn(ctx, qb)
 		res := c05classify(r, err, qb, cid)
 		if string(qb[2:]) != string(x.q[2:]) {
 			res.mut = true
@@ -358,15 +395,14 @@ func (w *c05world) collect() []string {
 		r := w.exs[e].res
 		switch {
 		case r.ok:
-			t := fmt.Sprintf("m%d:%d:%d", e, r.id, r.nonce)
-			if r.mut {
-				t += ":mut"
-			}
-			toks = append(toks, t)
+			toks = append(toks, fmt.Sprintf("m%d:%d:%d", e, r.id, r.nonce))
 		case r.cancel:
 			toks = append(toks, fmt.Sprintf("e%d:cancel", e))
 		default:
 			toks = append(toks, fmt.Sprintf("e%d:err", e))
+		}
+		if r.mut {
+			toks = append(toks, fmt.Sprintf("z%d", e)) // the caller's query buffer was modified
 		}
 	}
 	qs := w.newQ
@@ -378,16 +414,9 @@ func (w *c05world) collect() []string {
 		return qs[i].id < qs[j].id
 	})
 	for _, q := range qs {
-		t := fmt.Sprintf("q%d:%d:%d", q.e, q.c, q.id)
+		toks = append(toks, fmt.Sprintf("q%d:%d:%d", q.e, q.c, q.id))
 		if !q.intact {
-			t += ":corrupt"
-		}
-		toks = append(toks, t)
-	}
-	for _, c := range w.conns {
-		if c.cliClosed && !c.srvClosed && !w.repClose[c.idx] {
-			w.repClose[c.idx] = true
-			toks = append(toks, fmt.Sprintf("k%d", c.idx))
+			toks = append(toks, fmt.Sprintf("y%d", q.e)) // the query differs from the caller's beyond the ID
 		}
 	}
 	return toks
@@ -400,7 +429,9 @@ func (w *c05world) open(e int) bool {
 
 // inject a reply on connection c; returns the tokens of the group (w.mu held)
 func (w *c05world) inject(ci, id, p int, q []byte) []string {
-	if ci < 0 || ci >= len(w.conns) || w.conns[ci].srvClosed || w.conns[ci].cliClosed {
+	// (whether the client has closed the connection meanwhile is deliberately not consulted: it closes
+	// connections asynchronously, and a connection it closes has no exchange left that could be affected)
+	if ci < 0 || ci >= len(w.conns) || w.conns[ci].srvClosed {
 		return []string{"i-"}
 	}
 	c := w.conns[ci]
@@ -416,7 +447,7 @@ func (w *c05world) inject(ci, id, p int, q []byte) []string {
 	w.cond.Broadcast()
 	// barrier: the read loop is back in Read with nothing left to consume
 	if !w.wait(func() bool { return c.cliClosed || (len(c.in) == 0 && len(c.rest) == 0 && c.reading) }) {
-		toks = append(toks, "t-1")
+		toks = append(toks, fmt.Sprintf("t%d", 1000000+ci))
 	}
 	if expect >= 0 {
 		if !w.wait(func() bool { return w.exs[expect].res != nil }) {
@@ -434,12 +465,22 @@ func c05parseNats(s string) []int {
 	return o
 }
 
+// c05run runs a script; a run in which an expected effect did not show up in time is
+// repeated once (real-time slack), unless timeouts are the rule in this process already.
 func c05run(cs string) string {
+	out := c05runOnce(cs)
+	if c05timeouts.Load() < 3 && (strings.Contains(out, "T") || strings.Contains(out, ",t") || strings.Contains(out, "|t")) {
+		out = c05runOnce(cs)
+	}
+	return out
+}
+
+func c05runOnce(cs string) string {
 	m := kv(cs)
 	tcp := m["tcp"] == "1"
 	mc := atoi(m["mc"])
 	pre := atoi(m["pre"])
-	w := &c05world{tcp: tcp, exs: map[int]*c05ex{}, repRes: map[int]bool{}, repClose: map[int]bool{}}
+	w := &c05world{tcp: tcp, exs: map[int]*c05ex{}, repRes: map[int]bool{}}
 	w.cond = sync.NewCond(&w.mu)
 	c05tick()
 	c05cur.Store(w)
@@ -501,10 +542,6 @@ func c05run(cs string) string {
 	var ps []string
 	for _, c := range w.conns {
 		ps = append(ps, fmt.Sprintf("%d:%d:%s", c.nq, c.maxid+1, b2s(c.uniq)))
-		// connections the client closed during the prefix (end of life) are not news
-		if c.cliClosed {
-			w.repClose[c.idx] = true
-		}
 	}
 	w.mu.Unlock()
 	presum := "-"
@@ -521,16 +558,83 @@ func c05run(cs string) string {
 		}
 		var toks []string
 		w.mu.Lock()
+		if w.timeouts > 0 {
+			// an expected effect did not show up: the rest of the script is not run
+			// (but what the open exchanges got so far is collected: cancel them all and flush)
+			for _, x := range w.exs {
+				x.cancel()
+			}
+			w.wait(func() bool {
+				for _, x := range w.exs {
+					if x.res == nil {
+						return false
+					}
+				}
+				return true
+			})
+			groups = append(groups, strings.Join(append([]string{"T"}, w.collect()...), ","))
+			w.mu.Unlock()
+			break
+		}
 		switch op[0] {
+		case 'h':
+			// every listed exchange is first handed a connection by the pool, only then do they
+			// enter exchange() one after the other (needs the hook; else: a burst)
+			hk, ok := any(tr).(c05hook)
+			var parts [][]int
+			for _, part := range strings.Split(op[1:], "+") {
+				if a := c05parseNats(part); len(a) == 2 && w.exs[a[0]] == nil {
+					parts = append(parts, a)
+				}
+			}
+			if ok {
+				fns := make([]c05exFn, len(parts))
+				w.mu.Unlock()
+				for i := range parts {
+					f, err := hk.VerifGetConn(context.Background())
+					if err != nil {
+						f = func(context.Context, []byte) (*dnsmsg.Msg, error) { return nil, err }
+					}
+					fns[i] = f
+				}
+				w.mu.Lock()
+				for i, a := range parts {
+					w.startExFn(fns[i], a[0], a[1], nil)
+					x := w.exs[a[0]]
+					if !w.wait(func() bool { return x.nq > 0 || x.res != nil }) {
+						toks = append(toks, fmt.Sprintf("t%d", a[0]))
+					}
+				}
+				break
+			}
+			op = "b" + op[1:]
+			fallthrough
 		case 's', 'b':
 			var es []int
+			var gate *c05gate
+			if op[0] == 'b' {
+				gate = &c05gate{}
+			}
 			for _, part := range strings.Split(op[1:], "+") {
 				a := c05parseNats(part)
 				if len(a) != 2 || w.exs[a[0]] != nil {
 					continue
 				}
 				es = append(es, a[0])
-				w.startEx(tr, a[0], a[1])
+				w.startEx(tr, a[0], a[1], gate)
+			}
+			if gate != nil {
+				w.mu.Unlock()
+				// wait (briefly) until the starters spin at the gate, as many as there are processors
+				want := int32(len(es))
+				if p := int32(runtime.GOMAXPROCS(0)) - 1; want > p {
+					want = p
+				}
+				for i := 0; gate.arrived.Load() < want && i < 1<<20; i++ {
+					runtime.Gosched()
+				}
+				gate.open.Store(true)
+				w.mu.Lock()
 			}
 			for _, e := range es {
 				x := w.exs[e]
@@ -563,7 +667,7 @@ func c05run(cs string) string {
 			}
 		case 'x':
 			ci := atoi(op[1:])
-			if ci < 0 || ci >= len(w.conns) || w.conns[ci].srvClosed || w.conns[ci].cliClosed {
+			if ci < 0 || ci >= len(w.conns) || w.conns[ci].srvClosed {
 				toks = []string{"x-"}
 			} else {
 				toks = []string{fmt.Sprintf("x%d", ci)}
@@ -581,7 +685,7 @@ func c05run(cs string) string {
 				w.cond.Broadcast()
 				// the client notices (read error -> closeWithErr -> Close) before anything else happens
 				if !w.wait(func() bool { return w.conns[ci].cliClosed }) {
-					toks = append(toks, "t-2")
+					toks = append(toks, fmt.Sprintf("t%d", 2000000+ci))
 				}
 				for _, v := range vs {
 					v := v
@@ -611,6 +715,34 @@ func c05run(cs string) string {
 			groups = append(groups, strings.Join(all, ","))
 		}
 	}
+	// end: a connection whose 65536 wire ids are used up and that has no exchange left is closed by the
+	// client (end of life). The close itself is asynchronous: wait for it.
+	w.mu.Lock()
+	var end []string
+	if w.timeouts == 0 {
+		for _, c := range w.conns {
+			if c.nq < 65536 || c.srvClosed {
+				continue
+			}
+			busy := false
+			for _, x := range w.exs {
+				if x.res == nil && x.last[0] == c.idx {
+					busy = true
+				}
+			}
+			if busy {
+				continue
+			}
+			if w.wait(func() bool { return c.cliClosed }) {
+				end = append(end, fmt.Sprintf("k%d", c.idx))
+			}
+		}
+	}
+	w.mu.Unlock()
+	if len(end) == 0 {
+		end = []string{"-"}
+	}
+	groups = append(groups, strings.Join(end, ","))
 	return "pre=" + presum + " log=" + strings.Join(groups, "|")
 }
 
@@ -756,7 +888,7 @@ func c05script(r *rand.Rand, tcp bool, mc, pre, nops, maxOpen, maxE int) string 
 func c05gen_(r *rand.Rand, thorough bool, emit func(c, cat string)) {
 	n := 1200
 	if thorough {
-		n = 40000
+		n = 12000
 	}
 	for i := 0; i < n; i++ {
 		tcp := r.Intn(2) == 0
@@ -775,10 +907,38 @@ func c05gen_(r *rand.Rand, thorough bool, emit func(c, cat string)) {
 			emit(c05script(r, tcp, 64, 0, 3+r.Intn(10), 1+r.Intn(3), 1<<30), cat+"-short")
 		}
 	}
-	// wire id exhaustion: the last ids of a connection, end of life, redial
-	nb := 2
+	// wide: several hundred exchanges in flight on one connection (wire ids beyond one byte)
+	nw := 4
 	if thorough {
-		nb = 24
+		nw = 40
+	}
+	for i := 0; i < nw; i++ {
+		tcp := i%2 == 0
+		cat := "udp"
+		if tcp {
+			cat = "tcp"
+		}
+		g := &c05gen{r: r, lastP: map[int]int{}, maxE: 1 << 30, conns: 1}
+		for len(g.open) < 260+r.Intn(300) {
+			if r.Intn(3) == 0 {
+				g.ops = append(g.ops, "s"+g.start())
+			} else {
+				var parts []string
+				for j := 0; j < 2+r.Intn(14); j++ {
+					parts = append(parts, g.start())
+				}
+				g.ops = append(g.ops, "b"+strings.Join(parts, "+"))
+			}
+		}
+		for j := 0; j < 150+r.Intn(200); j++ {
+			g.step(1024)
+		}
+		emit(fmt.Sprintf("tcp=%s mc=4096 pre=0 ops=%s", b2s(tcp), g.finish()), cat+"-wide")
+	}
+	// wire id exhaustion: the last ids of a connection, end of life, redial
+	nb := 6
+	if thorough {
+		nb = 40
 	}
 	for i := 0; i < nb; i++ {
 		tcp := i%2 == 0
@@ -803,7 +963,11 @@ func c05gen_(r *rand.Rand, thorough bool, emit func(c, cat string)) {
 		for j := 0; j < 8+r.Intn(24); j++ {
 			parts = append(parts, g.start())
 		}
-		g.ops = append(g.ops, "b"+strings.Join(parts, "+"))
+		if i%3 == 2 {
+			g.ops = append(g.ops, "b"+strings.Join(parts, "+"))
+		} else {
+			g.ops = append(g.ops, "h"+strings.Join(parts, "+"))
+		}
 		for j := 0; j < 20+r.Intn(60); j++ {
 			g.step(64)
 		}
